@@ -311,10 +311,11 @@ PROPS = {
                       "read off the pattern: mandatory groups, ASCII-only groups).",
         "units": [K("utils.py::read_bytes"), K("utils.py::detect_encoding"), K("utils.py::read_xml_encoding"),
                   K("template.py::BaseTemplate.write@str"), K("template.py::BaseTemplate.write@bytes"),
+                  K("template.py::BaseTemplateFile.read@body"),
                   U('pyvc.regexlang', 'meta_unit', 're_meta.order'),
                   U('pyvc.frames', 'render_write_frame', 'render.write_frame')],
         "not_decided": ["RE_META fixes the attribute order http-equiv before content (finding D16)",
-                        "BaseTemplateFile.read (file decoding path) and PageTemplate.parse itself"],
+                        "PageTemplate.parse itself; package-relative files"],
         "assumptions": COMMON_ASSUMPTIONS + ["bytes are modelled as strings of code points 0..255"],
     },
     "C08": {
